@@ -355,6 +355,7 @@ func checkC14(p *load.Program, r *kit.Report) {
 	r.NotDecided = "the pong itself (needs the send path to run), multi-MB payload timing; for count-prefixed item loops exactness relies on the protocol's own invariant that varint + count×item equals the declared length (conformant traffic, which is what the property grants)."
 	r.Rule("CONSUME", "every handler return that may be nil is reached only after the message was consumed to exactly header.Length: readMessage, DiscardInput(r, header.Length), a deferred DiscardInputWithCounter/discardBlock whose counter tees every later read, or the exit of a count-bounded item loop; typed exemptions: closing connection (!IsReady in handlers installed with ready), dead-by-installation (txManager == nil), zero-payload commands, shutdown (interrupt arm)", 25)
 	r.Rule("FRAME-HELPERS", "readHeader reads 4+12+4+4 bytes and rejects a foreign magic before reading on; readMessage consumes exactly header.Length on success; DiscardInput reads n = (n/1024)·1024 + n%1024 bytes with full reads; handleMessage discards header.Length when no handler exists; handleExtended rewrites header.Length from the 12+8 byte extended header before installing the counted discard; readIncoming stops on every handler error", 7)
+	r.Rule("READ-AHEAD", "nothing in the node package wraps the connection (or a reader derived from it) in a bufio reader/scanner or reads it to EOF: a read-ahead buffer swallows the beginning of the next message", 1)
 	r.Rule("BLOCKING-OP", "no handler performs a blocking send on a channel held in a BitcoinNode field; the outgoing queue is drained until closed by sendOutgoing (flush loop on every early exit)", 2)
 	r.Assume("peer traffic is protocol-conformant (C14's own quantifier): for item loops, varint + count×item = declared length")
 
@@ -367,6 +368,7 @@ func checkC14(p *load.Program, r *kit.Report) {
 		consumeCheck(p, r, "CONSUME", f, byAccept[f] && fname(f) == "handleHeadersTrack", fname(f) == "handleInventory" && inventoryInstalledWithManager(p))
 	}
 	checkFrameHelpers(p, r, "FRAME-HELPERS")
+	checkReadAhead(p, r, "READ-AHEAD")
 	checkHandlerBlocking(p, r, "BLOCKING-OP", fns)
 }
 
